@@ -387,6 +387,31 @@ fn c01_like(tier: Tier, oracles: Oracles, with_drop: bool) -> Vec<Scenario> {
         let sc = Scenario::new("big-keys-m2", Cfg::default(), vec![tx(setup_ops), Action::Reopen], Box::new(txs_of(&bops, 2, with_drop, true)), if q { 2 } else { 3 }, oracles);
         out.push(sc);
     }
+    // hundreds of sibling buckets (more than 512) around a bucket whose nested bucket is modified;
+    // checked by return values and a complete scan of the write transaction before it ends
+    {
+        let mut mk = vec![OpSpec::bucket("create", &[], "p")];
+        for i in 0..560 {
+            mk.push(OpSpec::bucket("create", &["p"], &format!("s{:03}", i)));
+            mk.push(OpSpec::put(&["p", &format!("s{:03}", i)], "x", "v*12"));
+        }
+        mk.push(OpSpec::bucket("create", &["p", "s300"], "deep"));
+        mk.push(OpSpec::put(&["p", "s300", "deep"], "k0", "w*300"));
+        let sops = vec![
+            OpSpec::put(&["p", "s300", "deep"], "k", "w*300"),
+            OpSpec::del(&["p", "s300", "deep"], "k0"),
+            OpSpec::put(&["p", "s100"], "x", "v*9"),
+            OpSpec::bucket("delb", &["p"], "s200"),
+            OpSpec::bucket("goc", &["p", "s559"], "late"),
+        ];
+        let mut sc = Scenario::new("many-sibling-buckets-m2", Cfg { num_pages: 2048, ..Cfg::default() }, vec![tx(mk), Action::Reopen], Box::new(txs_of(&sops, 2, with_drop, true)), if q { 1 } else { 2 }, oracles);
+        if oracles.probe_each_op.is_some() {
+            sc.oracles = Oracles { rets: true, dump_in_tx: true, dump_after: true, ..Oracles::NONE };
+        }
+        sc.oracles.probe_in_tx_end = None;
+        sc.oracles.probe_after_commit = None;
+        out.push(sc);
+    }
     // five levels of nesting: operations at the two deepest levels, deleting ancestors
     {
         let deep_setup = vec![tx(vec![
